@@ -26,12 +26,14 @@ pub fn info() -> PropInfo {
     PropInfo {
         id: "C12",
         level: "exploration",
-        rule: "Inputs x: (seeds) the gimli::write-built seed sections of gen::seeds for all 64 encodings; (wmodel) seeded random gimli::write models: 1-3 units, random DIE trees, every writable attribute value kind with boundary values, expressions with forward/backward branches, typed operations and entry references, line programs with random header parameters / files with info / mid-sequence set_address, range and location lists; (asm.info) hand-assembled units (crate::asm) using the forms gimli::write cannot emit: strx*/addrx*/rnglistx/loclistx, every DW_RLE_*/DW_LLE_* kind and the legacy lists with and without a unit base, data/ref forms of every width, implicit_const, indirect, exprloc with branches incl. to the end and constants that re-encode shorter; (asm.line) hand-assembled line programs: every standard and extended opcode, special opcodes, mid-sequence set_address, fixed_advance_pc, define_file, non-default header parameters, v5 entry formats with every string form; (asm.cfi) hand-assembled .debug_frame / .eh_frame: every CFA instruction, code/data alignment factors {1,2,4,8,255,256,257,-1,-8,-128,-129}, offsets beyond i32, advance deltas beyond u32, augmentations zR/zP/zL/zS with pcrel/absptr/udata/sdata encodings.  Each x is converted with write::Dwarf::from AND the step-wise convert API (FrameTable::from for both frame sections; ConvertLineProgram::convert, read_row and read_sequence for line programs), written, re-read and dumped; when both steps return Ok the dumps must be equal, and a second conversion of the output must reproduce its dump.  A case is non-trivial when the model has >= 2 entries / >= 1 row / >= 1 FDE and at least one conversion path returned Ok is NOT required (judged on the generated model only); distinct by digest of the input sections.",
+        rule: "Inputs x: (seeds) the gimli::write-built seed sections of gen::seeds for all 64 encodings; (wmodel) seeded random gimli::write models: 1-3 units, random DIE trees, every writable attribute value kind with boundary values, expressions with forward/backward branches, typed operations and entry references, line programs with random header parameters / files with info / mid-sequence set_address, range and location lists; (asm.info) hand-assembled units (crate::asm) using the forms gimli::write cannot emit: strx*/addrx*/rnglistx/loclistx, every DW_RLE_*/DW_LLE_* kind and the legacy lists with and without a unit base, data/ref forms of every width, implicit_const, indirect, exprloc with branches incl. to the end and constants that re-encode shorter; (asm.line) hand-assembled line programs: every standard and extended opcode, special opcodes, mid-sequence set_address, fixed_advance_pc, define_file, non-default header parameters, v5 entry formats with every string form; (asm.cfi) hand-assembled .debug_frame / .eh_frame: every CFA instruction, code/data alignment factors {1,2,4,8,255,256,257,-1,-8,-128,-129}, offsets beyond i32, advance deltas beyond u32, augmentations zR/zP/zL/zS with pcrel/absptr/udata/sdata encodings.  Each x is converted with write::Dwarf::from AND the step-wise convert API (FrameTable::from for both frame sections; ConvertLineProgram::convert, read_row and read_sequence for line programs), written, re-read and dumped; when both steps return Ok the dumps must be equal, and a second conversion of the output must reproduce its dump.  A case is non-trivial when its generated model has >= 2 entries (units), >= 1 row (line programs) or >= 1 FDE (frames) - judged on the generated model only, never on gimli's answer; distinct by digest of the input sections.",
         assumptions: &[
             "Err from conversion or writing is always acceptable (counted per class; low success ratio => inconclusive)",
             "dump normalisations (all documented in mon/dump.rs): root children with DW_TAG_base_type listed first (gimli::write reorders them), file/directory tables compared as de-duplicated sets with files resolved to (path, directory) bytes, end_sequence rows compared by address only, lists compared as resolved ranges (base entries, tombstones, empty ranges invisible), CFI compared per FDE with the CIE inlined, DW_AT_sibling and *_base / dwo bookkeeping attributes omitted",
             "generated line programs have non-decreasing addresses within a sequence (the reader treats a decreasing set_address as a tombstone) and addresses that are multiples of minimum_instruction_length where the writer documents that requirement",
             "only compile units are generated: gimli::write always emits DW_UT_compile (type/partial/skeleton units and .debug_types are documented as unsupported by the writer)",
+            "a unit's line program has at least one row: write::Unit omits a line program (and DW_AT_stmt_list) that has no instructions and no file-index users (documented line_program_in_use behaviour)",
+            "known finding skipped by a marked constant (SKIP_VLIW_MID_SEQUENCE_SET_ADDRESS): max_ops > 1 is not combined with a mid-sequence DW_LNE_set_address; the stream known.vliw_set_address keeps observing it",
             "input entries have unique attribute names (DebuggingInformationEntry::set replaces a duplicate)",
             "convert_address is the identity (Address::Constant)",
         ],
